@@ -151,6 +151,39 @@ def canonical_loops(n):
     if n.get('k') != 'CompoundStmt':
         return
     kids = n.get('c', [])
+    # a counter initialised a few statements before its while loop (e.g. in its declaration at the top of the block): give the loop a
+    # synthetic init that repeats the initialisation right in front of it, when nothing in between mentions the counter
+    j = 1
+    while j < len(kids):
+        w = kids[j]
+        if isinstance(w, dict) and w.get('k') == 'WhileStmt' and isinstance(w.get('body'), dict) and w['body'].get('k') == 'CompoundStmt' and w['body'].get('c'):
+            last = strip_casts(w['body']['c'][-1]) if isinstance(w['body']['c'][-1], dict) else {}
+            v = strip_casts(last['c'][0]).get('name') if last.get('k') in ('UnaryOperator', 'CompoundAssignOperator', 'BinaryOperator') and last.get('c') and \
+                last.get('op') in ('++', 'post++', 'pre++', '+=') else None
+            prev = kids[j - 1] if isinstance(kids[j - 1], dict) else {}
+            direct = (prev.get('k') == 'BinaryOperator' and prev.get('op') == '=' and strip_casts(prev['c'][0]).get('name') == v) or \
+                (prev.get('k') == 'DeclStmt' and len(prev.get('decls', [])) == 1 and isinstance(prev['decls'][0], dict) and prev['decls'][0].get('name') == v)
+            if v and not direct:
+                for b in range(j - 1, max(-1, j - 8), -1):
+                    st_ = kids[b]
+                    if not isinstance(st_, dict):
+                        break
+                    init = None
+                    if st_.get('k') == 'BinaryOperator' and st_.get('op') == '=' and strip_casts(st_['c'][0]).get('name') == v:
+                        init = st_
+                    elif st_.get('k') == 'DeclStmt':
+                        for d in st_.get('decls', []):
+                            if isinstance(d, dict) and d.get('name') == v and d.get('init') is not None:
+                                init = {'k': 'BinaryOperator', 'op': '=', 'ln': st_.get('ln'), 'col': st_.get('col'), 'T': d.get('T'), 'synthetic': True,
+                                        'c': [{'k': 'DeclRefExpr', 'name': v, 'cls': d.get('cls', 'local'), 'id': d.get('id'), 'T': d.get('T'), 'dT': d.get('T'),
+                                               'ln': st_.get('ln'), 'col': st_.get('col')}, d['init']]}
+                    if init is not None:
+                        kids.insert(j, init)
+                        j += 1
+                        break
+                    if any(x.get('k') == 'DeclRefExpr' and x.get('name') == v for x in walk(st_)):
+                        break
+        j += 1
     j = 0
     while j + 1 < len(kids):
         a, w = kids[j], kids[j + 1]
